@@ -285,6 +285,39 @@ pub fn replay_form(case: &Value) -> (crate::erralg::Outcome, u64) {
             }
         }
     }
+    // a number written with a sign: the literal's kind is the same, so a target that takes no number takes no negative
+    // one either; and what a signed number yields does not depend on whether another item follows it (syn hands the
+    // value over as one literal when it is last and as a negation otherwise)
+    let kind = case["it"]["kind"].as_str().unwrap_or("");
+    if case["it"]["form"] != "word" && case["it"]["form"] != "list" && (kind == "int" || kind == "float") {
+        let exp = case["expect"].as_str().unwrap();
+        for text in item_texts(&case["it"]) {
+            let neg = text.replace("name = ", "name = -");
+            let last = parse_whole(&neg);
+            let followed = parse_whole(&format!("{}, zz = 1", neg));
+            for t in &targets {
+                let mut seen: Vec<Option<String>> = vec![];
+                for (pos, (meta, item)) in [("last", &last), ("followed by another item", &followed)] {
+                    runs += 1;
+                    let res = match catch(std::panic::AssertUnwindSafe(|| run_target(t, meta))) {
+                        Err(p) => { prop.push(format!("{} <- {} ({}): panicked: {}", t, neg, pos, p)); continue }
+                        Ok((res, _)) => res,
+                    };
+                    match &res {
+                        Ok(v) => if exp == "no" { prop.push(format!("{} <- {} ({}): accepted as `{}`, but the target's standard parsing does not accept this literal kind", t, neg, pos, v)); },
+                        Err(e) => match e.explicit_span() {
+                            None => prop.push(format!("{} <- {} ({}): error `{}` carries no span", t, neg, pos, e)),
+                            Some(s) => if !item.contains(&Range::of(s)) { prop.push(format!("{} <- {} ({}): error span outside the item", t, neg, pos)); },
+                        },
+                    }
+                    seen.push(res.ok());
+                }
+                if seen.len() == 2 && seen[0] != seen[1] {
+                    prop.push(format!("{} <- {}: {:?} when last in its list, {:?} when another item follows", t, neg, seen[0], seen[1]));
+                }
+            }
+        }
+    }
     (crate::erralg::Outcome { prop, model: vec![] }, runs)
 }
 
